@@ -117,9 +117,16 @@ def Node.url (n : Node) (issuer : String) (page : Nat) : Url := .sl n.base issue
 def Node.page? (n : Node) (u : Url) : Option PageRow := n.pages.find? (fun r => r.id == u)
 def Node.isManaged (n : Node) (u : Url) : Bool := (n.page? u).isSome
 def Node.cred? (n : Node) (u : Url) : Option CredRec := n.creds.find? (fun c => c.id == u)
+/-- the row an upsert leaves behind: gorm's `OnConflict{UpdateAll: true}` does not update `autoCreateTime` columns, so
+    `created_at` keeps the value of the first insert -/
+def Node.stored (n : Node) (rec : CredRec) : CredRec :=
+  match n.cred? rec.id with
+  | some old => { rec with createdAt := old.createdAt }
+  | none => rec
+
 /-- `tx.Clauses(clause.OnConflict{UpdateAll: true}).Create(credRecord)` -/
 def Node.putCred (n : Node) (rec : CredRec) : Node :=
-  { n with creds := rec :: n.creds.filter (fun c => !(c.id == rec.id)) }
+  { n with creds := n.stored rec :: n.creds.filter (fun c => !(c.id == rec.id)) }
 /-- `Preload("Revocations")`: the revoked indexes of one list -/
 def Node.revsOf (n : Node) (u : Url) : List Nat := (n.revs.filter (fun r => r.list == u)).map (·.idx)
 
@@ -252,14 +259,16 @@ def eWrite (E : Env) (w : EWorld) (tid : Nat) : EWorld :=
     | _ => w
   | none => w
 
-/-- the row the real databases return when nothing runs concurrently: the issuer's highest page, restricted to the
-    pinned primary key on a retry -/
+/-- the row the select returns when nothing runs concurrently. gorm's `Order("page").Last(…)` appends the primary key
+    descending to the given order (`ORDER BY page, subject_id DESC LIMIT 1`), so it is the issuer's LOWEST page; on a retry the
+    primary key left in the re-used struct restricts the query to that page. (After the first roll-over an `Entry` call
+    therefore always starts at page 1 and reaches the current page through duplicate-key retries.) -/
 def detSel (n : Node) (issuer : String) (pin : Option Url) : Option Url :=
   let rows := n.pages.filter (fun r => r.issuer == issuer && (match pin with | none => true | some p => r.id == p))
   (rows.foldl (fun (best : Option PageRow) r =>
       match best with
       | none => some r
-      | some b => if b.page < r.page then some r else some b) none).map (·.id)
+      | some b => if r.page < b.page then some r else some b) none).map (·.id)
 
 /-- status entry of a credential (`StatusList2021Entry`); `idx = none` when `strconv.Atoi(statusListIndex)` fails -/
 structure StatusEntry where
